@@ -360,19 +360,25 @@ def gen_c10(rnd, n, thorough=False):
         cases.append({'id': 'c10-%d' % c, 'lines': lines, 'tags': {'layout': lname, 'kind': kind, 'files': nfiles, 'window': wk, 'remote': int('remote' in hold)}})
         if c == 1:
             cases.append(many_files_case(rnd, 'c10-%d-many' % c, ['sum']))
+        if c == 2:
+            cases.append(many_files_case(rnd, 'c10-%d-hundreds' % c, ['sum'], nfiles=rnd.pick([257, 260, 300, 515] if thorough else [257, 260, 300])))
     return cases
 
 
-def many_files_case(rnd, cid, subs):
+def many_files_case(rnd, cid, subs, nfiles=None):
     """one item with 66 to 90 files (more than any batch or worker pool), one of them unreadable at a
-    random position: the sum of all but that one is not a sum -- the commands report the error"""
+    random position: the sum of all but that one is not a sum -- the commands report the error;
+    with nfiles given: that many files (hundreds), all readable: every file counts exactly once"""
     layout = [(1, 6), (3, 4)]
-    nfiles = rnd.randint(66, 90)
     r = rnd.random()
-    bad = rnd.randrange(64) if r < 0.6 else (rnd.randrange(nfiles) if r < 0.85 else None)      # mostly within the first 64
+    if nfiles is None:
+        nfiles = rnd.randint(66, 90)
+        bad = rnd.randrange(64) if r < 0.6 else (rnd.randrange(nfiles) if r < 0.85 else None)      # mostly within the first 64
+    else:
+        bad = None
     lines = []
     for j in range(nfiles):
-        nm = 's/i1/f%02d.wsp' % j
+        nm = 's/i1/f%03d.wsp' % j
         if j == bad:
             lines += ["create %s %s m 2 x 3f000000" % (nm, fmt_layout(layout)), "drop %s" % nm]
         else:
